@@ -245,6 +245,10 @@ func c11(c *Ctx) (*report.Result, error) {
 							}
 						}
 					}
+					// every update is applied - the empty one included (OnConnectionListUpdate reports "no session left" as nil):
+					// no path from entry to a return avoids the store
+					rr := flow.FindPath(flow.Point{Block: f.Blocks[0]}, flow.IsReturn, func(x ssa.Instruction) bool { return x == ssa.Instruction(st) }, nil)
+					res.Check(!rr.Found, "O11.3", "UpdateState: every update replaces connMap (the empty one too)", instrPos(c.Prog, st), "no path to a return skips the store", "UpdateState can return without replacing connMap (path "+flow.BlockPath(rr.Via)+"): e.g. a guard against a nil map drops the 'no session left' update, so the last endpoint stays dialable and CanMakeCalls() stays true although nothing is registered")
 					res.Check(okRes, "O11.3", "UpdateState: resolver updated from the new map in the same critical section", instrPos(c.Prog, st), "resolver.UpdateState(deriveStateFromConns()) after connMap = conns, lock held", "the resolver is not updated from the new map inside the same write-locked section: endpoints and dialer map can disagree")
 				}
 			}
